@@ -72,7 +72,7 @@ impl Op {
     /// keys printed for each operation name (in this order)
     pub fn keys(name: &str) -> &'static [&'static str] {
         match name {
-            "new" | "pop" | "clear" | "dedup" | "shrink" | "into_bump_slice" | "into_boxed" | "drop" => &["v"],
+            "new" | "pop" | "clear" | "dedup" | "dedup_by_lt" | "shrink" | "into_bump_slice" | "into_boxed" | "drop" => &["v"],
             "with_cap" | "truncate" | "reserve" | "reserve_exact" | "try_reserve" | "try_reserve_exact" | "into_iter_nth" => &["v", "n"],
             "push" => &["v", "x"],
             "insert" => &["v", "i", "x"],
@@ -413,17 +413,17 @@ pub fn gen_op(r: &mut Rng, prof: Profile, kind: char, view: &GenView) -> Op {
         Profile::General | Profile::Bounds => &[
             ("push", 16), ("pop", 6), ("insert", 8), ("remove", 7), ("swap_remove", 6), ("truncate", 5), ("clear", 2),
             ("resize", 5), ("extend", 5), ("extend_from_slice", 5), ("append", 4), ("split_off", 4), ("drain", 7),
-            ("splice", 5), ("drain_filter", 4), ("retain", 4), ("dedup", 2), ("dedup_by", 3), ("dedup_by_key", 2),
+            ("splice", 5), ("drain_filter", 4), ("retain", 4), ("dedup", 2), ("dedup_by", 3), ("dedup_by_lt", 3), ("dedup_by_key", 2),
             ("reserve", 3), ("reserve_exact", 2), ("try_reserve", 2), ("try_reserve_exact", 1), ("shrink", 3), ("clone", 3),
             ("into_iter", 2), ("into_iter_nth", 1), ("into_bump_slice", 1), ("into_boxed", 1), ("drop", 2), ("raw", 3), ("nb_str", 2), ("iowrite", 1),
         ],
         Profile::Iters => &[
             ("push", 10), ("extend", 8), ("drain", 16), ("splice", 16), ("drain_filter", 12), ("retain", 6), ("into_iter", 6), ("into_iter_nth", 4),
-            ("dedup_by", 5), ("dedup_by_key", 3), ("dedup", 2), ("append", 3), ("split_off", 3), ("clone", 3), ("insert", 3),
+            ("dedup_by", 5), ("dedup_by_lt", 3), ("dedup_by_key", 3), ("dedup", 2), ("append", 3), ("split_off", 3), ("clone", 3), ("insert", 3),
             ("raw", 2), ("shrink", 2), ("drop", 1), ("into_boxed", 1), ("into_bump_slice", 1),
         ],
         Profile::Panics => &[
-            ("push", 8), ("extend", 8), ("retain", 10), ("drain_filter", 14), ("dedup_by", 8), ("dedup_by_key", 6), ("resize", 10),
+            ("push", 8), ("extend", 8), ("retain", 10), ("drain_filter", 14), ("dedup_by", 8), ("dedup_by_lt", 4), ("dedup_by_key", 6), ("resize", 10),
             ("extend_from_slice", 8), ("clone", 8), ("splice", 10), ("truncate", 6), ("clear", 3), ("drop", 4), ("into_iter", 6), ("into_iter_nth", 3),
             ("drain", 8), ("into_boxed", 2), ("insert", 2), ("remove", 2),
         ],
